@@ -278,21 +278,26 @@ def cipher_level(ctx, model_ok):
         return None, None
     impl = list(zip(plan, lines, out))
     # ---- implementation-side judge
+    seq = []    # the session so far: from the last hs/st line on (a failing message needs it to replay)
     for (kind, data), line, o in impl:
+        if kind in ("hs", "hs0", "st"):
+            seq = []
+        seq.append(line)
         if o == "PANIC":
-            fails.append({"kind": "panic in PeerChannelEncryptor", "input": line[:300]})
+            fails.append({"kind": "panic in PeerChannelEncryptor", "input": "\n".join(seq)})
         elif kind == "msg":
             f = fields(o)
-            if f.get("ok") != "true":
-                fails.append({"kind": "message not delivered intact by the real encryptor pair", "input": line[:300], "impl": o[:200]})
+            if f.get("ok") != "true" or "a" not in f or "b" not in f:
+                if not any(x["kind"].startswith("message not delivered") for x in fails):
+                    fails.append({"kind": "message not delivered intact by the real encryptor pair", "input": "\n".join(seq), "impl": o[-120:]})
             else:
                 (ka, na), (kb, nb) = st_tuple(f["a"]), st_tuple(f["b"])
                 if not (ka[0] == kb[2] and ka[1] == kb[3] and ka[2] == kb[0] and ka[3] == kb[1] and na[0] == nb[1] and na[1] == nb[0]):
-                    fails.append({"kind": "the two ends left lock-step", "input": line[:300], "a": f["a"], "b": f["b"]})
+                    fails.append({"kind": "the two ends left lock-step", "input": "\n".join(seq), "a": f["a"], "b": f["b"]})
         elif kind == "volume":
             f = fields(o)
             if f.get("bad") != "-":
-                fails.append({"kind": "volume run: " + f.get("bad", "?").replace("_", " "), "input": line})
+                fails.append({"kind": "volume run: " + f.get("bad", "?").replace("_", " "), "input": "\n".join(seq)})
             cov["volume"] = {k: f.get(k) for k in ("n", "sent", "rot", "max_sn")}
             r0 = sum(int(x) for x in f.get("rot", "0,0").split(","))
             if r0 < 2:
@@ -335,6 +340,10 @@ def cipher_level(ctx, model_ok):
                 f = fields(impl[pos][2])
                 pos += 1
                 n_ops += 1
+                if not all(k in f for k in ("a", "b", "c", "m", "len")):
+                    dis.append({"topic": "transport message", "keys": keys, "index": j, "dir": d, "msg": m[:80], "impl": impl[pos - 1][2][:200], "model": [x[:80] for x in ss[10 * j:10 * j + 2]]})
+                    pos += len(ms) - j - 1
+                    break
                 a_k, a_n = st_tuple(f["a"])
                 b_k, b_n = st_tuple(f["b"])
                 want_s = [f["c"], f["m"]] + a_k + b_k
@@ -353,6 +362,9 @@ def cipher_level(ctx, model_ok):
                 f = fields(impl[pos][2])
                 pos += 1
                 n_ops += 1
+                if not all(k in f for k in ("a", "b", "c", "m", "len")):
+                    dis.append({"topic": "rotation window", "start": {"sn": sn, "rn": rn}, "index": j, "dir": d, "impl": impl[pos - 1][2][:200], "model": [x[:80] for x in ss[10 * j:10 * j + 2]]})
+                    break
                 a_k, a_n = st_tuple(f["a"])
                 b_k, b_n = st_tuple(f["b"])
                 want_s = [f["c"], f["m"]] + a_k + b_k
@@ -826,6 +838,15 @@ def run(ctx):
         if not okm:
             ctx.log("model build failed:", outm[-1500:])
         proved = ctx.prove("C15")
+        if proved and ctx.tier == "thorough":
+            # independent re-check of the compiled closure by the standalone checker
+            rc, outc, t = core.sh(["coqchk", "-silent", "-o", "-Q", core.COQ, "LdkV", "LdkV.Props.C15"], timeout=1500)
+            ctx.timed("coqchk_s", t)
+            okc = rc == 0 and "Axioms: <none>" in outc
+            ctx.obligations.append(("coqchk LdkV.Props.C15 (closure re-checked, no axioms)", okc, outc[-400:] if not okc else "ok"))
+            if not okc:
+                proved = False
+                ctx.proof_failure = {"where": "coqchk", "enclosing": "", "log_tail": outc[-1500:]}
     else:
         ctx.obligations.append(("regeneration of Gen/NoiseConsts.v", False, gen_err))
         # the previous generation is still on disk: use it for the model side if it builds
@@ -931,6 +952,7 @@ def replay(ctx, rep):
         print("harness does not build")
         return 1
     binname = "h_peer" if line.split()[0] in ("honest", "raw") else "h_noise"
+    line = line.rstrip("\n")
     pre = ""
     if fi.get("state"):
         pre = fi["state"] + "\n"
